@@ -585,6 +585,28 @@ def write_baseline(P):
     return len(clean)
 
 
+def run_s13(chk):
+    """lane-mask coverage of SAFE_DATA wipes (imbv/maskcover.py)"""
+    from .. import maskcover
+    r = chk.rule('S13', 'flush routines that copy key material into the empty lanes under a lane-mask ladder (`bt mask, lane; jnc`) wipe every such '
+                        'place again under a mask that is OR-ed from at least the same constructions (a 16-lane mask cmp | cmp << 8 is not covered '
+                        'by its 8-lane half)', floor=300)
+    for rel, fs in sorted(maskcover.all_units().items()):
+        if not fs:
+            continue
+        decided, bad = maskcover.verdicts(fs)
+        seen = set()
+        for c, why in bad:
+            key = '%s:%s:%#x' % (rel, c['fn'], c['off'])
+            if key in seen:
+                continue
+            seen.add(key)
+            r.bad(key, rel, '%s (%s): `%s` at +%#x copies lane state under bit %d of a mask built from %s; %s - the copy stays in the manager '
+                            'after the job is returned' % (c['fn'], rel, ' '.join(c['txt'].split()), c['a'], c['bit'], c['mask'], why))
+        for i in range(decided - len(bad)):
+            r.ok('%s#%d' % (rel, i))
+
+
 def run(chk):
     P = cf.Program()
     chk.explanation = ('Partial: each clause is a necessary condition of the SAFE_DATA promise. C side: locals the code itself scrubs are '
@@ -602,6 +624,7 @@ def run(chk):
     run_s9(chk, P)
     from . import twins
     twins.rule_copy_siblings(chk, P, 'X5', floor=100)
+    run_s13(chk)
     run_s10(chk, P)
     run_s11(chk, P)
     # S4: road block coverage and whole-manager clears (shared)
